@@ -143,6 +143,9 @@ def _genseq(draw):
             connects.append([i, i + 1, pairs(i, i + 1)])
     if len(seq) > 2 and draw(st.integers(0, 3)) == 0:
         connects.append([0, len(seq) - 1, pairs(0, len(seq) - 1)])
+    # a record may name the later block first (j:i:b-a means the same bonds as i:j:a-b)
+    connects = [[j, i, [[b, a] for a, b in prs]] if draw(st.integers(0, 3)) == 0 else [i, j, prs]
+                for i, j, prs in connects]
     modf = []
     if draw(st.integers(0, 2)) == 0:
         modf.append([draw(st.integers(0, len(seq) - 1)), "TER"])
